@@ -10,16 +10,20 @@ Open Scope string_scope.
 Fixpoint str (s : string) : list N :=
   match s with EmptyString => [] | String a r => N_of_ascii a :: str r end.
 
-Lemma banners_documented :
+Definition documented_banners : Prop :=
   banner_x25519_priv = str "NEBULA X25519 PRIVATE KEY" /\ banner_x25519_pub = str "NEBULA X25519 PUBLIC KEY" /\
   banner_p256_priv = str "NEBULA P256 PRIVATE KEY" /\ banner_p256_pub = str "NEBULA P256 PUBLIC KEY" /\
   banner_ecdsa_p256_enc = str "NEBULA ECDSA P256 ENCRYPTED PRIVATE KEY" /\
   banner_ecdsa_p256_priv = str "NEBULA ECDSA P256 PRIVATE KEY" /\ banner_ecdsa_p256_pub = str "NEBULA ECDSA P256 PUBLIC KEY" /\
   banner_ed25519_enc = str "NEBULA ED25519 ENCRYPTED PRIVATE KEY" /\
   banner_ed25519_priv = str "NEBULA ED25519 PRIVATE KEY" /\ banner_ed25519_pub = str "NEBULA ED25519 PUBLIC KEY".
-Proof. repeat split; reflexivity. Qed.
 
-Lemma constants_documented :
+Lemma banners_documented : documented_banners.
+Proof. unfold documented_banners. repeat split; reflexivity. Qed.
+
+Definition documented_constants : Prop :=
   alg_name = str "AES-256-GCM" /\ argon2_version = 19 /\ gcm_nonce_len = 12 /\ gcm_tag_len = 16 /\ generated_salt_len = 32.
-Proof. repeat split; reflexivity. Qed.
+
+Lemma constants_documented : documented_constants.
+Proof. unfold documented_constants. repeat split; reflexivity. Qed.
 
